@@ -50,6 +50,12 @@ static void powerset_menu(Menu<PS>& m) {
   m.call("add_constraints", "constraint_system_dimension_exceeds", IA, [](PS& x, Rej& rj) { OPND(Constraint_System, cs, (le_dim(N + 1) >= 0)); rj.attempt([&] { x.add_constraints(cs); }); OPCHK(cs); }, false, [](const PS& x) { return x.size() > 0; });
   m.call("refine_with_constraint", "constraint_dimension_exceeds", IA, [](PS& x, Rej& rj) { OPND(Constraint, c, (le_dim(N + 1) >= 0)); rj.attempt([&] { x.refine_with_constraint(c); }); OPCHK(c); }, false, [](const PS& x) { return x.size() > 0; });
   m.call("add_congruence", "proper_congruence", IA, [](PS& x, Rej& rj) { OPND(Congruence, c, ((A %= 1) / 2)); rj.attempt([&] { x.add_congruence(c); }); OPCHK(c); }, false, [](const PS& x) { return x.size() > 0 && x.space_dimension() >= 1; });
+  std::function<bool(const PS&)> nonempty = [](const PS& x) { return x.size() > 0; };
+  std::function<bool(const PS&)> nonempty1 = [](const PS& x) { return x.size() > 0 && x.space_dimension() >= 1; };
+  cs_variants<PS>(m, "add_constraints", "constraint_system_dimension_exceeds", IA, CK_DIM, [](PS& x, const Constraint_System& cs) { x.add_constraints(cs); }, nonempty);
+  cs_variants<PS>(m, "refine_with_constraints", "constraint_system_dimension_exceeds", IA, CK_DIM, [](PS& x, const Constraint_System& cs) { x.refine_with_constraints(cs); }, nonempty);
+  cs_variants<PS>(m, "add_constraints", "strict_inequality_on_C_polyhedron", IA, CK_STRICT, [](PS& x, const Constraint_System& cs) { x.add_constraints(cs); }, nonempty1);
+  cgs_variants<PS>(m, "add_congruences", "proper_congruence", IA, GGK_PROPER, [](PS& x, const Congruence_System& cgs) { x.add_congruences(cgs); }, nonempty1);
 #define PSY(method, stmt) m.call(method, "operand_dimension_differs", IA, [](PS& x, Rej& rj) { OPND(PS, y, (N + 1)); rj.attempt([&] { stmt; }); OPCHK(y); })
   PSY("difference_assign", x.difference_assign(y));
   PSY("geometrically_covers", (void) x.geometrically_covers(y)); PSY("geometrically_equals", (void) x.geometrically_equals(y));
@@ -131,6 +137,11 @@ static void mip_menu(Menu<MIP_Problem>& m) {
   m.call("add_constraint", "strict_inequality", IA, [](T& x, Rej& rj) { OPND(Constraint, c, (A > 0)); rj.attempt([&] { x.add_constraint(c); }); OPCHK(c); }, false, d1);
   m.call("add_constraints", "constraint_system_dimension_exceeds", IA, [](T& x, Rej& rj) { Constraint_System cs; cs.insert(A >= 0); cs.insert(le_dim(N + 1) >= 0); rj.attempt([&] { x.add_constraints(cs); }); }, false, d1);
   m.call("add_constraints", "strict_inequality_after_valid_constraint", IA, [](T& x, Rej& rj) { Constraint_System cs; cs.insert(A <= 50); cs.insert(A > 0); rj.attempt([&] { x.add_constraints(cs); }); }, false, d1);
+  cs_variants<T>(m, "add_constraints", "strict_inequality", IA, CK_STRICT, [](T& x, const Constraint_System& cs) { x.add_constraints(cs); }, d1);
+  cs_variants<T>(m, "add_constraints", "constraint_system_dimension_exceeds", IA, CK_DIM, [](T& x, const Constraint_System& cs) { x.add_constraints(cs); });
+  cs_variants<T>(m, "MIP_Problem(dim,cs,obj,mode)", "strict_inequality", IA, CK_STRICT, [](T& x, const Constraint_System& cs) { MIP_Problem y(std::max<dimension_type>(x.space_dimension(), 1), cs); (void) y; });
+  cs_variants<T>(m, "MIP_Problem(dim,cs,obj,mode)", "constraint_system_dimension_exceeds", IA, CK_DIM, [](T& x, const Constraint_System& cs) { MIP_Problem y(x.space_dimension(), cs); (void) y; });
+  cs_variants<T>(m, "MIP_Problem(dim,first,last,obj,mode)", "strict_inequality", IA, CK_STRICT, [](T& x, const Constraint_System& cs) { MIP_Problem y(std::max<dimension_type>(x.space_dimension(), 1), cs.begin(), cs.end()); (void) y; });
   m.call("set_objective_function", "objective_dimension_exceeds", IA, [](T& x, Rej& rj) { OPND(Linear_Expression, e, (le_dim(N + 1))); rj.attempt([&] { x.set_objective_function(e); }); OPCHK(e); });
   m.call("evaluate_objective_function", "generator_dimension_exceeds", IA, [](T& x, Rej& rj) { OPND(Generator, g, (point(le_dim(N + 1)))); Coefficient n, d; rj.attempt([&] { x.evaluate_objective_function(g, n, d); }); OPCHK(g); });
   m.call("evaluate_objective_function", "generator_is_a_ray", IA, [](T& x, Rej& rj) { OPND(Generator, g, (ray(A))); Coefficient n, d; rj.attempt([&] { x.evaluate_objective_function(g, n, d); }); OPCHK(g); }, false, d1);
@@ -185,6 +196,8 @@ static void pip_menu(Menu<PIP_Problem>& m) {
   m.call("add_to_parameter_space_dimensions", "variable_not_a_dimension", IA, [](T& x, Rej& rj) { Variables_Set pv = vset(N); rj.attempt([&] { x.add_to_parameter_space_dimensions(pv); }); });
   m.call("add_constraint", "constraint_dimension_exceeds", IA, [](T& x, Rej& rj) { OPND(Constraint, c, (le_dim(N + 1) >= 0)); rj.attempt([&] { x.add_constraint(c); }); OPCHK(c); });
   m.call("add_constraints", "constraint_system_dimension_exceeds", IA, [](T& x, Rej& rj) { Constraint_System cs; cs.insert(A >= 0); cs.insert(le_dim(N + 1) >= 0); rj.attempt([&] { x.add_constraints(cs); }); }, false, d1);
+  cs_variants<T>(m, "add_constraints", "constraint_system_dimension_exceeds", IA, CK_DIM, [](T& x, const Constraint_System& cs) { x.add_constraints(cs); });
+  cs_variants<T>(m, "PIP_Problem(dim,first,last,p_vars)", "constraint_dimension_exceeds", IA, CK_DIM, [](T& x, const Constraint_System& cs) { Variables_Set pv; PIP_Problem y(x.space_dimension(), cs.begin(), cs.end(), pv); (void) y; });
   m.call("set_big_parameter_dimension", "dimension_is_not_a_parameter", IA, [](T& x, Rej& rj) { rj.attempt([&] { x.set_big_parameter_dimension(0); }); }, false, [](const T& x) { return x.space_dimension() >= 1 && x.parameter_space_dimensions().count(0) == 0; });
   m.call("set_big_parameter_dimension", "dimension_exceeds", IA, [](T& x, Rej& rj) { rj.attempt([&] { x.set_big_parameter_dimension(N + 3); }); });
 }
@@ -227,8 +240,9 @@ int main(int argc, char** argv) {
     for (size_t s = 0; s < R[r].nstates; ++s) { It it; it.r = r; it.s = s; items.push_back(it); }
   }
   auto input = [&](size_t r, size_t s, size_t c) {
-    return J().str("class", R[r].cls).str("state", R[r].state_name(s)).str("call", R[r].call_method(c)).str("ill_formed_because", R[r].call_kind(c))
-              .str("documented_exception", "std::" + R[r].call_expect(c)).done();
+    J j; j.str("class", R[r].cls).str("state", R[r].state_name(s)).str("call", R[r].call_method(c)).str("ill_formed_because", R[r].call_kind(c));
+    if (!R[r].call_arg_state(c).empty()) j.str("system_argument", R[r].call_arg_state(c));
+    return j.str("documented_exception", "std::" + R[r].call_expect(c)).done();
   };
   auto judge = [&](size_t r, size_t s, size_t c, bool verbose) {
     Verdict v = R[r].run(s, c);
@@ -249,10 +263,10 @@ int main(int argc, char** argv) {
 
   if (!ARGS.replay.empty()) {
     std::ifstream f(ARGS.replay.c_str()); std::stringstream ss; ss << f.rdbuf(); std::string txt = ss.str();
-    std::string cls = json_field(txt, "class"), st = json_field(txt, "state"), call = json_field(txt, "call"), kind = json_field(txt, "ill_formed_because");
+    std::string cls = json_field(txt, "class"), st = json_field(txt, "state"), call = json_field(txt, "call"), kind = json_field(txt, "ill_formed_because"), ast = json_field(txt, "system_argument");
     for (size_t r = 0; r < R.size(); ++r) if (R[r].cls == cls)
       for (size_t s = 0; s < R[r].nstates; ++s) if (R[r].state_name(s) == st)
-        for (size_t c = 0; c < R[r].ncalls; ++c) if (R[r].call_method(c) == call && R[r].call_kind(c) == kind) judge(r, s, c, true);
+        for (size_t c = 0; c < R[r].ncalls; ++c) if (R[r].call_method(c) == call && R[r].call_kind(c) == kind && R[r].call_arg_state(c) == ast) judge(r, s, c, true);
     return 0;
   }
 
